@@ -84,6 +84,9 @@ type CDPSpec struct {
 	// SamePath k > 0: use the path of CDP k-1 (same origin): with different Query strings the two locations
 	// differ in nothing but the query.
 	SamePath int  `json:"same_path,omitempty"`
+	// UpperOf k > 0 (only with Kind http): the path is the path of CDP k-1 in upper case, on the same origin and without a
+	// query: two locations that differ in nothing but letter case (distinct resources: paths are case sensitive)
+	UpperOf int `json:"upper_of,omitempty"`
 	NoAKI    bool `json:"no_aki,omitempty"` // CRLs of this CDP carry no authorityKeyIdentifier
 	PEM      bool `json:"pem,omitempty"`    // served PEM encoded
 	// Form: "" v2 with cRLNumber | "nonumber" v2 without cRLNumber | "v1" version 1 list (no extensions at all)
@@ -338,6 +341,9 @@ func init() {
 func (w *World) pathOf(c int) string {
 	cd := w.spec.CDPs[c]
 	p := fmt.Sprintf("/cdp%d.crl", c)
+	if cd.Kind == "http" && cd.UpperOf > 0 && cd.UpperOf-1 < c {
+		return fmt.Sprintf("/CDP%d.CRL", cd.UpperOf-1)
+	}
 	if cd.Kind == "http" && cd.Twin >= 0 && cd.Twin < c {
 		p = fmt.Sprintf("/cdp%d.crl", cd.Twin)
 	} else if cd.SamePath > 0 && cd.SamePath-1 < c {
